@@ -36,7 +36,7 @@ PANICKING_API = [
     (r"^core::str::<impl str>::(split_at|split_at_mut)$", "str-position"),
     (r"^std::string::String::(remove|insert|insert_str|truncate|split_off|drain|replace_range)$", "string-position"),
     (r"^bitvec::.*::(shift_left|shift_right|rotate_left|rotate_right|split_at|split_at_mut|set|swap|remove|insert)$", "bitvec-position"),
-    (r"From<&\[u8\]> for pallas_crypto::hash::Hash<|<pallas_crypto::hash::Hash<\w+> as std::convert::From<&\[u8\]>>::from", "fixed-size-from-slice"),
+    (r"From<&\[u8\]> for pallas_\w+::(hash::)?Hash<|<pallas_\w+::(hash::)?Hash<\w+> as std::convert::From<&\[u8\]>>::from", "fixed-size-from-slice"),
     (r"^std::cell::RefCell::<T>::(borrow|borrow_mut)$", "refcell-borrow"),
     (r"^std::iter::Iterator::step_by$", "step-by"),
     (r"^std::(option::Option|result::Result)::<.*>::(unwrap_unchecked|unwrap_err|expect_err)$", "unwrap-other"),
